@@ -407,7 +407,7 @@ REQS = {
     "x_result": ("execute_request", {"code": "1 + 2", "store_history": True}),
     "x_assign": ("execute_request", {"code": "cellvar = 41", "store_history": True}),
     "x_raise": ("execute_request", {"code": "1 / 0", "store_history": True}),
-    "x_print": ("execute_request", {"code": "print('out-a')\nlog.info('out-b')", "store_history": True}),
+    "x_print": ("execute_request", {"code": "print('out-a')\nprint('')\nlog.info('out-b')", "store_history": True}),
     "x_nohist": ("execute_request", {"code": "'quiet'", "store_history": False}),
     "x_raise_nohist": ("execute_request", {"code": "undefined_name_q", "store_history": False}),
     "complete": ("complete_request", {"code": "cellv", "cursor_pos": 5}),
@@ -477,7 +477,7 @@ def check_session(res, w, seq, n_iopub):
                     if name in ("x_raise", "x_raise_nohist"):
                         exp_inner.append("error")
                     if name == "x_print":
-                        exp_inner += ["stream", "stream"]
+                        exp_inner += ["stream", "stream", "stream"]
                     if inner != exp_inner:
                         return fail(res, sample, "iopub-sequence", exp_inner, inner, step=i, name=name)
                     ein = [m for m in io if m["header"]["msg_type"] == "execute_input"][0]
@@ -494,8 +494,8 @@ def check_session(res, w, seq, n_iopub):
                             return fail(res, sample, "error-message", want_e, em["content"].get("ename"), step=i)
                     if name == "x_print":
                         texts = [m["content"]["text"] for m in io if m["header"]["msg_type"] == "stream"]
-                        if texts != ["out-a\n", "out-b\n"]:
-                            return fail(res, sample, "stdout-stream", ["out-a\n", "out-b\n"], texts, step=i)
+                        if texts != ["out-a\n", "\n", "out-b\n"]:
+                            return fail(res, sample, "stdout-stream", ["out-a\n", "\n", "out-b\n"], texts, step=i)
                 elif inner:
                     return fail(res, sample, "iopub-sequence", [], inner, step=i, name=name)
             if mtype == "execute_request":
@@ -517,6 +517,54 @@ def check_session(res, w, seq, n_iopub):
         if w.errors:
             res.fail("session|loop-exception", sample, observed=repr(w.errors[0])[:200])
         return None
+    finally:
+        s.close()
+
+
+def check_late_subscriber(res, w, cut, name):
+    """A further iopub subscriber connects, but only the first `cut` bytes of its greeting have arrived while a request is
+    served; the rest arrives afterwards.  Whatever the kernel wrote to that subscriber must still be a well-formed ZMTP stream:
+    its own greeting and READY command first, and only whole, signed messages after that."""
+    import asyncio
+
+    s = Session(w, 1)
+    sample = {"engine": "late", "cut": cut, "req": name}
+    try:
+        r, wr = asyncio.StreamReader(), MemWriter()
+        hello = GREETING + READY
+        r.feed_data(hello[:cut])
+        s.tasks.append(w.loop.create_task(s.k.iopub_listen(r, wr)))
+        w.settle()
+        mtype, content = REQS[name]
+        parts, hdr = request(mtype, content, "m-early")
+        s.send(parts)
+        r.feed_data(hello[cut:])
+        w.settle()
+        parts2, hdr2 = request(mtype, content, "m-late")
+        s.send(parts2)
+        buf = bytes(wr.buf)
+        res.case(("late", cut, name, len(buf) > 0), nontrivial=True, transitions=3, config="late-subscriber", sample=sample)
+        kind = None
+        if len(buf) < len(GREETING) or buf[0] != 0xFF or buf[9] != 0x7F:
+            kind, obs = "late-subscriber-stream-corrupt", buf[:24].hex()
+        else:
+            try:
+                frames = dec_frames(buf[len(GREETING):])
+            except Exception as e:  # noqa
+                frames, kind, obs = None, "late-subscriber-stream-corrupt", repr(e)
+            if frames is not None:
+                if not frames or frames[0][0] != "cmd":
+                    kind, obs = "late-subscriber-stream-corrupt", [f[0] for f in frames[:3]]
+                else:
+                    msgs = [parse_msg(m) for k2, m in frames if k2 == "msg"]
+                    if not all(m["sig_ok"] for m in msgs):
+                        kind, obs = "late-subscriber-bad-signature", len(msgs)
+                    elif not any(m["parent"].get("msg_id") == "m-late" for m in msgs):
+                        kind, obs = "late-subscriber-missed-later-request", [m["parent"].get("msg_id") for m in msgs]
+        if kind:
+            res.fail(f"late|{kind}", sample, expected="greeting, READY, then whole signed messages incl. those of the later request", observed=obs)
+        if w.errors:
+            res.fail("late|loop-exception", sample, observed=repr(w.errors[0])[:200])
     finally:
         s.close()
 
@@ -569,6 +617,11 @@ def run_shard(shard):
                         i += 1
                         if i % n == k:
                             check_session(res, w, seq, n_iopub)
+            hello_len = len(GREETING + READY)
+            cuts = range(0, hello_len) if tier == "thorough" else (0, 1, 9, 10, 11, 12, 32, 63, 64, 65, 66, hello_len - 1)
+            for j, (cut, name) in enumerate(itertools.product(cuts, ("x_print", "x_result", "kinfo"))):
+                if j % n == k:
+                    check_late_subscriber(res, w, cut, name)
     finally:
         w.close()
     return res
@@ -588,6 +641,8 @@ def replay(case):
         try:
             if case["engine"] == "auth":
                 check_auth(res, w, tuple(case["corruption"]))
+            elif case["engine"] == "late":
+                check_late_subscriber(res, w, case["cut"], case["req"])
             else:
                 check_session(res, w, tuple(case["seq"]), case["iopub"])
         finally:
